@@ -2,6 +2,9 @@ package core
 
 import (
 	"bufio"
+	"bytes"
+	"os/exec"
+	"strings"
 	"encoding/binary"
 	"encoding/json"
 	"fmt"
@@ -48,6 +51,7 @@ type WorkerArgs struct {
 	OutDir   string
 	Known    []Known
 	Hashes   bool // selftest: record (index, scenario hash, log hash, verdict) per run
+	Fresh    bool // every run in a child process of its own
 }
 
 // FoundViolation is a violation together with its scenario.
@@ -134,9 +138,14 @@ func RunWorker(a WorkerArgs) int {
 			_ = os.WriteFile(racing, raw, 0o644)
 		}
 		log := NewLog(false)
-		WatchdogArm(raw)
-		res, err := SafeExecute(p, sc, a.Phase, log)
-		WatchdogIdle()
+		var res Result
+		if a.Fresh {
+			res, err = execFresh(a, raw, log)
+		} else {
+			WatchdogArm(raw)
+			res, err = SafeExecute(p, sc, a.Phase, log)
+			WatchdogIdle()
+		}
 		if err != nil {
 			out.InfraError = fmt.Sprintf("run %d: %v\nscenario: %s", i, err, raw)
 			break
@@ -211,6 +220,73 @@ func RunWorker(a WorkerArgs) int {
 	}
 	runtime.KeepAlive(scen)
 	return 0
+}
+
+// FreshStats is what a child process reports about the scenario it executed.
+type FreshStats struct {
+	Nontrivial bool             `json:"nontrivial"`
+	Skipped    bool             `json:"skipped"`
+	Invalid    bool             `json:"invalid"`
+	Steps      int              `json:"steps"`
+	StateKey   string           `json:"state_key"`
+	Counters   map[string]int64 `json:"counters"`
+	LogHash    uint64           `json:"log_hash"`
+	LogN       int              `json:"log_n"`
+}
+
+// execFresh executes one scenario in a child process of its own and turns what
+// the child reports into a Result.
+func execFresh(a WorkerArgs, raw []byte, log *Log) (Result, error) {
+	var res Result
+	self, err := os.Executable()
+	if err != nil {
+		return res, err
+	}
+	file := filepath.Join(a.OutDir, fmt.Sprintf("w%d.fresh.json", a.K))
+	if err := os.WriteFile(file, raw, 0o644); err != nil {
+		return res, err
+	}
+	cmd := exec.Command(self, "exec", "-prop", a.Prop, "-phase", a.Phase, "-file", file, "-stats")
+	cmd.Env = os.Environ()
+	var buf bytes.Buffer
+	cmd.Stdout, cmd.Stderr = &buf, &buf
+	rerr := cmd.Run()
+	out := buf.String()
+	for _, ln := range strings.Split(out, "\n") {
+		if strings.HasPrefix(ln, "STATS ") {
+			var st FreshStats
+			if json.Unmarshal([]byte(strings.TrimPrefix(ln, "STATS ")), &st) == nil {
+				res.Nontrivial, res.Skipped, res.Invalid, res.Steps, res.StateKey, res.Counters = st.Nontrivial, st.Skipped, st.Invalid, st.Steps, st.StateKey, st.Counters
+				log.N = st.LogN
+				log.SetHash(st.LogHash)
+			}
+		}
+		if strings.HasPrefix(ln, "RESULT ") {
+			var v Violation
+			if json.Unmarshal([]byte(strings.TrimPrefix(ln, "RESULT ")), &v) == nil {
+				res.Violation = &v
+			}
+		}
+	}
+	if rerr != nil {
+		code := -1
+		if ee, ok := rerr.(*exec.ExitError); ok {
+			code = ee.ExitCode()
+		}
+		switch code {
+		case 3:
+			if res.Violation == nil {
+				return res, fmt.Errorf("child reported a violation without a RESULT line:\n%s", lastLines(out, 20))
+			}
+		case 66:
+			res.Violation = &Violation{Class: "data-race", Sig: raceSig(out), Detail: firstLines(raceSummary(out), 30)}
+		case ExitHung:
+			res.Violation = &Violation{Class: "non-termination", Sig: hungSig(out), Detail: hungDetail(out)}
+		default:
+			return res, fmt.Errorf("child process failed: %v\n%s", rerr, lastLines(out, 20))
+		}
+	}
+	return res, nil
 }
 
 func writeBitmap(path string, b bitmap) error {
